@@ -373,7 +373,9 @@ class HeapBalancerSink(LoadBalancerSink):
     """Close the sink and all underlying nodes immediately."""
     super(HeapBalancerSink, self).Close()
     self._open = False
-    [n.channel.Close() for n in self._heap]
+    # Closing a channel fails its in-flight requests, and releasing those
+    # re-orders the heap: walk a snapshot so that no member is skipped.
+    [n.channel.Close() for n in list(self._heap)]
 
   @property
   def state(self):
